@@ -1676,6 +1676,27 @@ ld rel_error_uncertainty(ChkptView const& v, int nt)
     return 32 * eps_of(nt) * worst * (v.results.size() + 1);
 }
 
+// condition number of the combined estimate after each iteration: sum |t_i E_i| / |sum t_i E_i| (the
+// estimates of the iterations may cancel)
+std::vector<ld> reference_value_conditions(ChkptView const& v)
+{
+    std::vector<ld> cond;
+    ld num = 0, den = 0;
+    for (auto const& r : v.results)
+    {
+        if (r.fin != 0 && r.calls >= 2)
+        {
+            ld const N = r.calls;
+            ld const var = (r.sumsq - r.sum * r.sum / N) / N / (N - 1);
+            ld const t = 1 / var;
+            num += std::fabs(t * (r.sum / N));
+            den += t * (r.sum / N);
+        }
+        cond.push_back((den != 0 && std::isfinite(num / den)) ? std::fabs(num / den) : 1e30L);
+    }
+    return cond;
+}
+
 std::vector<ld> reference_rel_errors(ChkptView const& v)
 {
     std::vector<ld> rho;
